@@ -388,6 +388,8 @@ class CallMixin:  # pylint:disable=too-many-public-methods
                     return self.attr_memo[key]
             if attr == "__name__":
                 return v.name.rsplit(".", 1)[-1]
+            if cls is None and v.name in ("builtins.str", "builtins.list", "builtins.dict", "builtins.set", "builtins.tuple", "builtins.int"):
+                return ExtVal(f"{v.name}.{attr}")  # unbound method of a builtin type, e.g. dict.fromkeys, str.upper
             if cls is None and attr.isupper():
                 return EnumVal(v.name, attr, attr)  # member of an external enum (e.g. maus' DataElementDataType)
             raise Unsupported(f"class attribute {v.name}.{attr}")
@@ -754,6 +756,11 @@ class CallMixin:  # pylint:disable=too-many-public-methods
         if name in self.ext_handlers:
             return self.ext_handlers[name](self, args, kwargs)
         short = name[9:] if name.startswith("builtins.") else name
+        if name == "builtins.dict.fromkeys":
+            val = args[1] if len(args) > 1 else None
+            return {self.hashable(k, node, frame): val for k in self.iterate(args[0], node, frame)}
+        if name.startswith(("builtins.str.", "builtins.list.", "builtins.dict.", "builtins.set.", "builtins.tuple.")) and args:
+            return self.call_bound(BoundExt(args[0], name.rsplit(".", 1)[-1]), list(args[1:]), kwargs, node, frame)
         if short == "isinstance":
             return self.isinstance_(args[0], args[1], node, frame)
         if short == "issubclass":
